@@ -333,6 +333,33 @@ impl<'a> IrEval<'a> {
                     Some(Flow::Ret(Some(v)))
                 }
             }
+            // labels are statements of their own in the IR; executed in sequence they do nothing
+            "case" | "default" => Some(Flow::Normal),
+            "switch" => {
+                // jump to the first matching `case`, else to `default`, else past the block; fall through until `break`
+                let v = self.eval(&x[1], st, depth)?;
+                let t = T::parse(x[0].atom())?;
+                let items = x[2].args();
+                // a label's constant is kept as written (usually an IntLiteral) and compared in the scrutinee's type
+                let mut start = None;
+                for (i, s) in items.iter().enumerate() {
+                    if s.head() == "case" && cast_val(t, ir_const(&s.args()[0])?)? == v {
+                        start = Some(i);
+                        break;
+                    }
+                }
+                let start = start.or_else(|| items.iter().position(|s| s.head() == "default"));
+                if let Some(i) = start {
+                    for s in &items[i..] {
+                        match self.exec(s, st, depth)? {
+                            Flow::Normal => {}
+                            Flow::Break => return Some(Flow::Normal),
+                            other => return Some(other),
+                        }
+                    }
+                }
+                Some(Flow::Normal)
+            }
             _ => None,
         }
     }
@@ -790,6 +817,67 @@ impl<'a> AstEval<'a> {
                     let v = self.eval_as(fr.ret, &x[0], fr, gl, depth)?;
                     Some(Flow::Ret(Some(v)))
                 }
+            }
+            "empty" => Some(Flow::Normal),
+            // a label reached in sequence: just the statement it labels
+            "case" => self.exec(&x[1], fr, gl, depth),
+            "default" => self.exec(&x[0], fr, gl, depth),
+            "switch" => {
+                if x[1].head() != "block" {
+                    return None;
+                }
+                // C: the controlling expression is promoted (a literal int is an int); each label's constant is
+                // converted to that type; control jumps to the matching label, else `default`, else past the block
+                let tc = self.type_of(&x[0], fr)?;
+                let t = if tc == T::Lit { T::Int } else { tc };
+                let v = self.eval_as(t, &x[0], fr, gl, depth)?;
+                enum Item<'s> {
+                    Case(&'s Sx),
+                    Default,
+                    Stmt(&'s Sx),
+                }
+                fn flat<'s>(s: &'s Sx, out: &mut Vec<Item<'s>>) {
+                    match s.head() {
+                        "case" => {
+                            out.push(Item::Case(&s.args()[0]));
+                            flat(&s.args()[1], out)
+                        }
+                        "default" => {
+                            out.push(Item::Default);
+                            flat(&s.args()[0], out)
+                        }
+                        "empty" => {}
+                        _ => out.push(Item::Stmt(s)),
+                    }
+                }
+                let mut items = Vec::new();
+                for s in x[1].args() {
+                    flat(s, &mut items);
+                }
+                let mut start = None;
+                for (i, it) in items.iter().enumerate() {
+                    if let Item::Case(e) = it {
+                        if self.eval_as(t, e, fr, gl, depth)? == v {
+                            start = Some(i);
+                            break;
+                        }
+                    }
+                }
+                if start.is_none() {
+                    start = items.iter().position(|it| matches!(it, Item::Default));
+                }
+                if let Some(i) = start {
+                    for it in &items[i..] {
+                        if let Item::Stmt(s) = it {
+                            match self.exec(s, fr, gl, depth)? {
+                                Flow::Normal => {}
+                                Flow::Break => return Some(Flow::Normal),
+                                other => return Some(other),
+                            }
+                        }
+                    }
+                }
+                Some(Flow::Normal)
             }
             _ => None,
         }
